@@ -36,7 +36,8 @@ Exh(pk, n, lp1) == lp1 > n \/ pk[lp1] = "nil"
 AfterLoop(pk, n, m) == IF Exh(pk, n, m.lastp1) \/ m.cn \/ m.st THEN "no" ELSE "must"
 MInit(pk, n) == [ok |-> TRUE, stk |-> <<>>, lastp1 |-> 0, st |-> FALSE, code |-> 0, body |-> <<>>, cn |-> FALSE,
                  pend |-> IF pk[0] = "nil" THEN "no" ELSE "must", pan |-> FALSE, escaped |-> FALSE, why |-> "",
-                 rh |-> FALSE]          \* rh: a custom ReturnHandler is mapped for this request (set by the trace spec)
+                 rh |-> FALSE,          \* rh: a custom ReturnHandler is mapped for this request (set by the trace spec)
+                 head |-> FALSE]        \* head: a HEAD request - no body byte reaches the underlying writer (C13), so only the status is compared
 Bad(m, why) == [m EXCEPT !.ok = FALSE, !.why = why]
 HasRec(pk, stk) == \E i \in 1..Len(stk) : pk[stk[i].h] = "rec"
 MStep(pk, n, m, e) ==
@@ -91,7 +92,7 @@ MStep(pk, n, m, e) ==
          IF m.pan /\ d = 0 /\ ~HasRec(pk, m.stk) THEN [m EXCEPT !.pan = FALSE, !.escaped = TRUE, !.pend = "no"]
          ELSE Bad(m, "panic escaped ServeHTTP although Recovery was installed before it")
     [] e.e = "end" ->
-         IF ~m.pan /\ d = 0 /\ (m.pend \in {"no", "may"}) /\ (m.escaped \/ (e.status = m.code /\ e.body = m.body))
+         IF ~m.pan /\ d = 0 /\ (m.pend \in {"no", "may"}) /\ (m.escaped \/ (e.status = m.code /\ (IF m.head THEN e.body = <<>> ELSE e.body = m.body)))
          THEN [m EXCEPT !.pend = "done"]
          ELSE Bad(m, "request ended early, with open handlers, or with a status/body the events do not explain")
 
